@@ -65,6 +65,7 @@ def worker(a):
            'first': a.start, 'last': None}
     digests = set()
     n_dumped = 0
+    dumped_sigs = set()
     rdir = VERIF / 'replays'
     for i in range(a.start, a.start + a.count):
         if time.time() >= deadline:
@@ -102,7 +103,8 @@ def worker(a):
         if r['violations']:
             v = r['violations'][0]
             entry = {'index': i, 'run_seed': rs, 'violation': v, 'all': r['violations'][:5]}
-            if n_dumped < 4:
+            if n_dumped < 4 or (v['sig'] not in dumped_sigs and n_dumped < 12):
+                dumped_sigs.add(v['sig'])
                 rdir.mkdir(exist_ok=True)
                 path = rdir / f'raw-{a.prop}-{rs:016x}.json'
                 with open(path, 'w') as f:
@@ -310,7 +312,7 @@ def run_checks(a):
     import importlib  # pylint: disable=import-outside-toplevel
     E = getattr(importlib.import_module(eng_mod), eng_cls)
     samples = [s for r in results for s in r['samples']][:3]
-    fired = {k: stats.get(k, 0) for k in E.fault_kinds}
+    fired = {k: stats.get(k, 0) for k in getattr(E, 'fault_kinds_by_prop', {}).get(a.prop, E.fault_kinds)}
     probes = {k: stats.get(k, 0) for k in E.probes}
     evidence = {
         'property_id': a.prop, 'tier': a.tier, 'seed': a.seed, 'level': 'exploration',
